@@ -197,7 +197,7 @@ func c12Run(c *core.Case, o *core.Outcome, dist api.DistributionType) {
 			}
 		}
 		gotInterval, fn, err := api.NewDistribution(dist, interval, rateFn, randFn)
-		desc := fmt.Sprintf("%s interval=%v N=%d rates=%v rand=%s", dist, interval, n, rates, randKind)
+		desc := fmt.Sprintf("%s interval=%v N=%d rates=%v rand=%s timestamps=%d", dist, interval, n, rates, randKind, 0)
 		if err != nil {
 			o.Violate("dist-error:"+desc, "NewDistribution failed: %v (%s)", err, desc)
 			return
@@ -207,11 +207,21 @@ func c12Run(c *core.Case, o *core.Outcome, dist api.DistributionType) {
 			return
 		}
 		now := time.Unix(1_700_000_000, 0)
+		// the timestamps handed to the function: exact 100 ms steps, frozen, late/dropped ticks, jittery
+		tpat := r.IntN(4)
 		for cy := 0; cy < cycles; cy++ {
 			sum, mn, mx := 0, math.MaxInt, math.MinInt
 			for k := 0; k < n; k++ {
 				v := fn(now)
-				now = now.Add(100 * time.Millisecond)
+				switch tpat {
+				case 0:
+					now = now.Add(100 * time.Millisecond)
+				case 1:
+				case 2:
+					now = now.Add(time.Duration(100+r.IntN(400)) * time.Millisecond)
+				default:
+					now = now.Add(time.Duration(70+r.IntN(60)) * time.Millisecond)
+				}
 				if v < 0 {
 					o.Violate("dist-negative:"+desc, "negative value %d at cycle %d sub-tick %d (%s)", v, cy, k, desc)
 					return
